@@ -15,6 +15,11 @@ EXTENDS Integers, Sequences, FiniteSets, TLC, Json, Genotypes
 
 CONSTANTS Ploidies, AlleleCounts, MaxReads, MaxCount
 Fs == {<<0, 1>>, <<1, 4>>, <<1, 2>>}          \* inbreeding f1/f2
+FsZero == {<<0, 1>>}                          \* high-ploidy configurations (Snv_high*.cfg): the rising factorials of F > 0 exceed 32 bits
+(* The instance is ONE SNV: the posterior of a SNV is a function of that SNV's own base calls, its own number of alleles, *)
+(* the ploidy and F (code comment: "independent of alleles at other positions").  The harness therefore also embeds the   *)
+(* instances of one (P, F) side by side into multi-SNV loci (different allele counts next to each other, each SNV's base   *)
+(* calls on reads that are gaps at the other SNVs - GapIsNeutral) and requires every column to keep its instance's values. *)
 
 VARIABLES P, n, F, reads      \* reads: sequence of <<cell, count>>, cell = -1 (gap) or allele
 vars == <<P, n, F, reads>>
@@ -42,6 +47,14 @@ PriorW(g) ==
            RECURSIVE Pr(_)
            Pr(x) == IF x = n THEN 1 ELSE Rising(a, D, CountOf(g, x)) * Pr(x + 1)
        IN  Perms(g) * Pr(0)
+
+(* the multinomial coefficient without forming P! (which exceeds 32 bits from P = 13): a product of binomials *)
+RECURSIVE Binom(_, _)
+Binom(m, k) == IF k = 0 THEN 1 ELSE (Binom(m, k - 1) * (m - k + 1)) \div k
+RECURSIVE Multi(_, _, _)
+Multi(g, x, rem) == IF x = n THEN 1 ELSE LET c == CountOf(g, x) IN Binom(rem, c) * Multi(g, x + 1, rem - c)
+PermsSafe(g) == Multi(g, 0, P)
+PermsAgree == P <= 12 => LET o == VcfOrder(n, P) IN \A i \in 1..Len(o) : PermsSafe(o[i]) = Perms(o[i])
 
 AllG == LET o == VcfOrder(n, P) IN o
 Table == LET o == AllG IN [i \in 1..Len(o) |-> [g |-> o[i], w |-> PriorW(o[i]), f |-> [r \in 1..Len(reads) |-> <<ReadSum(reads[r], o[i]), reads[r][2]>>]]]
